@@ -166,7 +166,7 @@ def _exec_chunk(items):
         except AssertionError as ex:
             out.append({'tid': it['tid'], 'skip': 'printer: %s' % ex})
             continue
-        result, links, db = pj.parse_and_project(text, allow=it['allow'], links=it['want'] in ('links', 'selflinks'))
+        result, links, db = pj.parse_and_project(text, allow=it['allow'], links=it['want'] in ('links', 'selflinks'), via=it.get('via', 'str'))
         rec = {'tid': it['tid'], 'doc': it['doc'], 'allow': it['allow'], 'want': it['want'],
                'result': result, 'links': links, 'obs': {'off': {'kind': 'none'}, 'same_dbml': True, 'same_sql': True,
                                                          'store': {'t': 0, 'c': 0, 'k': '', 'v': ''}, 'after': {'kind': 'none'}},
